@@ -58,7 +58,7 @@ def write_jsonfile(path, data, sort_keys=True, indent=4, ensure_ascii=True,
         json_string = json.dumps(data, sort_keys=sort_keys, skipkeys=skipkeys,
                                  ensure_ascii=ensure_ascii, indent=indent,
                                  cls=cls)
-    except TypeError:
+    except (TypeError, UnicodeDecodeError):
         s = f"Unable to serialize the metadata to JSON: {data}.\n" \
             f"Use character strings as dictionary keys, and only " \
             f"character strings, numbers, booleans, None, lists, " \
